@@ -251,6 +251,29 @@ def compare_items(M, name, got, items):
         M.eq(name + "/out" + tag(idx), got[idx], v)
 
 
+SPECIAL = ("identity", "cycle", "rect-eye", "select")
+
+
+def make_transform(M, name, shape_, special=None):
+    """the transformation matrix of a lincomb shape: generic symbolic entries, or one of the special exact matrices a
+    fast path could single out - the identity, a cyclic shift (a permutation that is not its own inverse for n >= 3),
+    the rectangular identity eye(k, n) with k < n, a 0/1 row selection in another order"""
+    if not special:
+        return M.vec(name, shape_)
+    n = shape_[1]
+    if special == "identity":
+        rows = [[1 if i == j else 0 for j in range(n)] for i in range(n)]
+    elif special == "cycle":
+        rows = [[1 if j == (i + 1) % n else 0 for j in range(n)] for i in range(n)]
+    elif special == "rect-eye":
+        k = max(1, n - 1)
+        rows = [[1 if i == j else 0 for j in range(n)] for i in range(k)]
+    else:
+        k = max(1, n - 1)
+        rows = [[1 if j == (n - 1 - i) else 0 for j in range(n)] for i in range(k)]
+    return M.array(np.array(rows, dtype=object)) if M.symbolic else np.array(rows, dtype=float)
+
+
 def apply_transform(M, arr, U, naxes):
     """U applied to each of the first naxes axes (independent statement, plain loops)"""
     F = M.SF
@@ -342,6 +365,9 @@ class TwoSymm(AssemblyBase):
             if n <= 2:
                 out.append(dict(shells=shells, method="lincomb", types=["cartesian"] * n, trailing=[], rect=False))
             out.append(dict(shells=shells, method="lincomb", types=["spherical"] * n, trailing=[2], rect=True))
+        for sp in SPECIAL:
+            out.append(dict(shells=[dict(l=1, M=1), dict(l=0, M=2)], method="lincomb", types=["cartesian", "cartesian"], trailing=[], rect=False, special=sp))
+            out.append(dict(shells=[dict(l=1, M=1), dict(l=0, M=1)], method="lincomb", types=["spherical", "cartesian"], trailing=[2], rect=False, special=sp))
         return out
 
     def run(self, shape, M):
@@ -375,7 +401,7 @@ class TwoSymm(AssemblyBase):
                 ncont = sum(s.norm_cont.shape[0] * (s.norm_cont.shape[1] if t == "cartesian" else 2 * s.angmom + 1)
                             for s, t in zip(shells, types))
                 # rectangular: fewer orbitals than contractions (every contraction index is still summed over)
-                U = M.vec("U", (min(3, ncont + 1) if shape["rect"] else ncont, ncont))
+                U = make_transform(M, "U", (min(3, ncont + 1) if shape["rect"] else ncont, ncont), shape.get("special"))
                 got = obj.construct_array_lincomb(U, list(types), **kw)
         fr.check(M, "asm", got)
         M.true("asm/kwargs", all(k == kw for _, k in blocks.calls) and len(blocks.calls) > 0, "keyword arguments reach every block call")
@@ -433,6 +459,9 @@ class TwoAsymm(AssemblyBase):
             out.append(dict(a=sa, b=sb, method="lincomb", ta=["spherical"] * na, tb=(["cartesian", "spherical"] * 2)[:nb], trailing=[], tr=[True, True]))
             out.append(dict(a=sa, b=sb, method="lincomb", ta=["cartesian"] * na, tb=["cartesian"] * nb, trailing=[2], tr=[False, True]))
             out.append(dict(a=sa, b=sb, method="lincomb", ta=["spherical"] * na, tb=["spherical"] * nb, trailing=[], tr=[True, False]))
+        for sp, sp2 in zip(SPECIAL, SPECIAL[1:] + SPECIAL[:1]):
+            out.append(dict(a=[dict(l=1, M=1)], b=[dict(l=0, M=2), dict(l=1, M=1)], method="lincomb", ta=["cartesian"], tb=["cartesian", "spherical"], trailing=[],
+                            tr=[True, True], special=sp, special2=sp2))
         return out
 
     def run(self, shape, M):
@@ -465,8 +494,8 @@ class TwoAsymm(AssemblyBase):
                 def ncont(shs, ts):
                     return sum(s.norm_cont.shape[0] * (s.norm_cont.shape[1] if t == "cartesian" else 2 * s.angmom + 1) for s, t in zip(shs, ts))
 
-                U1 = M.vec("U", (ncont(sa, ta) + 1, ncont(sa, ta))) if shape["tr"][0] else None
-                U2 = M.vec("V", (ncont(sb, tb) + 2, ncont(sb, tb))) if shape["tr"][1] else None
+                U1 = make_transform(M, "U", (ncont(sa, ta) + 1, ncont(sa, ta)), shape.get("special")) if shape["tr"][0] else None
+                U2 = make_transform(M, "V", (ncont(sb, tb) + 2, ncont(sb, tb)), shape.get("special2")) if shape["tr"][1] else None
                 got = obj.construct_array_lincomb(U1, U2, list(ta), list(tb), **kw)
         M.true("asm/kwargs", all(k == kw for _, k in blocks.calls) and len(blocks.calls) == len(sa) * len(sb), "every block called once with the keyword arguments")
         M.true("asm/transform-side", all(c == "left" for c in T.calls), "generate_transformation(..., 'left')")
@@ -503,6 +532,8 @@ class OneIndex(AssemblyBase):
             out.append(dict(shells=shells, method="lincomb", types=(["spherical", "cartesian"] * 2)[:n], trailing=[2], rect=True))
             out.append(dict(shells=shells, method="lincomb", types=["cartesian"] * n, trailing=[2], rect=False))
             out.append(dict(shells=shells, method="lincomb", types=["spherical"] * n, trailing=[2], rect=True))
+        for sp in SPECIAL:
+            out.append(dict(shells=[dict(l=1, M=1), dict(l=0, M=2)], method="lincomb", types=["spherical", "cartesian"], trailing=[2], rect=False, special=sp))
         return out
 
     def run(self, shape, M):
@@ -532,7 +563,7 @@ class OneIndex(AssemblyBase):
             else:
                 types = shape["types"]
                 ncont = sum(s.norm_cont.shape[0] * (s.norm_cont.shape[1] if t == "cartesian" else 2 * s.angmom + 1) for s, t in zip(shells, types))
-                U = M.vec("U", ((ncont - 1) if shape["rect"] and ncont > 1 else ncont, ncont))
+                U = make_transform(M, "U", ((ncont - 1) if shape["rect"] and ncont > 1 else ncont, ncont), shape.get("special"))
                 got = obj.construct_array_lincomb(U, list(types), **kw)
         M.true("asm/kwargs", all(k == kw for _, k in blocks.calls) and len(blocks.calls) == n, "every block called once with the keyword arguments")
         M.true("asm/transform-side", all(c == "left" for c in T.calls), "generate_transformation(..., 'left')")
@@ -574,6 +605,8 @@ class FourSymm(AssemblyBase):
             if n <= 2 and ncart <= 5:
                 out.append(dict(shells=shells, method="lincomb", types=(["spherical", "cartesian"] * 2)[:n], trailing=[], rect=True))
                 out.append(dict(shells=shells, method="cartesian", trailing=[2]))
+        for sp in SPECIAL:
+            out.append(dict(shells=[dict(l=0, M=2), dict(l=0, M=1)], method="lincomb", types=["cartesian", "spherical"], trailing=[], rect=False, special=sp))
         return out
 
     def run(self, shape, M):
@@ -603,7 +636,7 @@ class FourSymm(AssemblyBase):
             else:
                 types = shape["types"]
                 ncont = sum(s.norm_cont.shape[0] * (s.norm_cont.shape[1] if t == "cartesian" else 2 * s.angmom + 1) for s, t in zip(shells, types))
-                U = M.vec("U", (min(2, ncont) if shape["rect"] else ncont, ncont))
+                U = make_transform(M, "U", (min(2, ncont) if shape["rect"] else ncont, ncont), shape.get("special"))
                 got = obj.construct_array_lincomb(U, list(types), **kw)
         M.true("asm/kwargs", all(k == kw for _, k in blocks.calls) and len(blocks.calls) > 0, "keyword arguments reach every block call")
         M.true("asm/transform-side", all(c == "left" for c in T.calls), "generate_transformation(..., 'left')")
